@@ -23,7 +23,9 @@ ANCHORS = [("deap/cma.py", ["StrategyOnePlusLambda", "StrategyMultiObjective", "
            ("deap/tools/indicator.py", ["hypervolume"]),
            ("deap/tools/emo.py", ["sortLogNondominated"])]
 LEVEL = "proof"
-RULE = ("streams in this order: structured histories (success streaks, simultaneous constraint violations, sibling "
+RULE = ("streams in this order: RESTART histories (a new strategy built from the individuals of a running one: MO parents shuffled / "
+        "sorted / filtered, the next offspring population, a mix, the same objects and deep copies, lambda = mu and != mu, once or "
+        "twice; (1+lambda) and active (1+lambda) from the previous parent object or a deep copy), structured histories (success streaks, simultaneous constraint violations, sibling "
         "survivors, plain Fitness with unevaluated offspring, MO default mu / more initial individuals than mu), _select end to end "
         "through the COMPOSED model (C04 sort + C15 indicator) on exactly representable bi-/tri-objective fitnesses with ties in "
         "single objectives, duplicates, min/max/mixed weights and a near-tie family (first part; the larger second part closes the run), exactly "
@@ -62,7 +64,9 @@ EXPLANATION = ("PARTIAL. Lean theorems about Core/CmaElitist.lean, all inputs: e
                "(1+lambda) success rule, A A^T = C under the Cholesky contract and preservation of positive definiteness "
                "(onepl_cov_rule, onepl_factor, onepl_posdef), MO selection count / rank-then-indicator closed form / "
                "alignment of the five per-parent lists (mo_select_count, mo_rank_then_hv, mo_alignment, mo_adjust_spec, "
-               "mo_offspring_values); whole-history invariants: active_inverse_history (invA*A = I through rank-one and "
+               "mo_offspring_values), alignment by identity for arbitrary _ps tags carried by the initial population "
+               "(mo_alignment_any_initial_tags, retag_setTags, mo_run_tag_independent: generate overwrites the tag of every "
+               "parent, so stale tags of a restarted population never reach update; driver op mo-round); whole-history invariants: active_inverse_history (invA*A = I through rank-one and "
                "constraint updates), mo_inverse_history and mo_psucc_sigma_history (every parent, any sequence of rounds), "
                "onepl_factor_history (A A^T = C and C positive definite after every round). Composition, exact regime: mo_select_library "
                "(_select with the C04 model of sortLogNondominated and the C15 model of the hypervolume indicator: exactly mu, whole "
@@ -343,6 +347,14 @@ def eval_oneplus(d):
     branches = set()
     try:
         for r in range(nrounds):
+            rs = d.get("restart")
+            if rs and r == rs["at"]:
+                # a new strategy started from the parent object of the running one (or a deep copy): the object
+                # carries whatever the previous run left on it; elitism and the factor clauses go on unchanged
+                par0 = copy.deepcopy(strategy.parent) if rs.get("clone") else strategy.parent
+                strategy = cma.StrategyOnePlusLambda(par0, rs["sigma"], lambda_=lam, **kargs)
+                if strategy.parent is not par0 or not numpy.array_equal(strategy.C, numpy.identity(dim)):
+                    raise Fail("round %d (restart): the new strategy does not start from the given parent and C = I" % r)
             pre = dict(parent=strategy.parent, px=list(strategy.parent), pw=tuple(strategy.parent.fitness.wvalues),
                        pid=strategy.parent._id, sigma=strategy.sigma, C=strategy.C.copy(), A=strategy.A.copy(),
                        pc=strategy.pc.copy(), psucc=strategy.psucc)
@@ -635,6 +647,47 @@ def mo_fronts(cands):
     return [[next(p for p, c in enumerate(cands) if c is f) for f in front] for front in fr]
 
 
+def restart_population(S, rs, rng, Ind, obj, rep):
+    """The initial population of a strategy restarted from the individuals of the running strategy `S`:
+    mode 'perm' (its parents, shuffled), 'sorted' (its parents sorted by the first objective), 'subset' (some of
+    its parents, shuffled), 'offspring' (the next offspring population, as algorithms.eaGenerateUpdate returns it),
+    'mixed' (parents and offspring).  The objects themselves, or deep copies (which carry every attribute the old
+    strategy left on them).  Returns (population, lambda_, constructor kargs)."""
+    mode = rs["mode"]
+    pars = list(S.parents)
+    offs = []
+    if mode in ("offspring", "mixed"):
+        with tapemod.Tape(rng=rng, numpy_too=True), NpExtra(rng):
+            offs = S.generate(Ind)
+        for o in offs:
+            repair(o, rep)
+            o.fitness.values = bi_objective(obj, o)
+    if mode == "perm":
+        start = pars[:]
+        rng.shuffle(start)
+    elif mode == "sorted":
+        start = sorted(pars, key=lambda p: p.fitness.values[0], reverse=bool(rs.get("reverse")))
+    elif mode == "subset":
+        start = pars[:]
+        rng.shuffle(start)
+        start = start[:max(1, min(len(start), int(rs.get("keep", 1))))]
+    elif mode == "offspring":
+        start = list(offs)
+        if rs.get("keep"):
+            start = start[:max(1, int(rs["keep"]))]
+    else:
+        start = pars + list(offs)
+        rng.shuffle(start)
+        start = start[:max(1, min(len(start), int(rs.get("keep", len(start)))))]
+    if rs.get("clone"):
+        start = [copy.deepcopy(p) for p in start]
+    lam = int(rs["lam"]) if rs.get("lam") else len(start)     # lam None/0: lambda_ = mu = len(start)
+    kargs = {}
+    if rs.get("mu") and not (lam == int(rs["mu"]) and len(start) < lam):   # lambda_ == mu needs mu parents (generate)
+        kargs["mu"] = int(rs["mu"])
+    return start, lam, kargs
+
+
 def eval_mo(d):
     dim, mu, lam, obj, nrounds = d["dim"], d["mu"], d["lam"], d["obj"], d["rounds"]
     Ind = IND["mix2" if obj == "mixed" else "min2"]
@@ -649,17 +702,24 @@ def eval_mo(d):
         kargs["mu"] = mu
     else:
         mu = len(pop0)                      # the constructor's default
-    strategy = cma.StrategyMultiObjective(pop0, d["sigma"], lambda_=lam, **kargs)
-    spy = SelectSpy(strategy)
     r1calls = []
-    real_r1 = strategy._rankOneUpdate
 
-    def r1(invCh, A, alpha, beta, v):
-        pre_inv, pre_A, pre_v = invCh.copy(), A.copy(), v.copy()     # before the call: it may work in place
-        out = real_r1(invCh, A, alpha, beta, v)
-        r1calls.append((pre_inv, pre_A, alpha, beta, pre_v, (out[0].copy(), out[1].copy())))
-        return out
-    strategy._rankOneUpdate = r1
+    def instrument(strategy):
+        spy_ = SelectSpy(strategy)
+        real_r1 = strategy._rankOneUpdate
+
+        def r1(invCh, A, alpha, beta, v):
+            pre_inv, pre_A, pre_v = invCh.copy(), A.copy(), v.copy()     # before the call: it may work in place
+            out = real_r1(invCh, A, alpha, beta, v)
+            r1calls.append((pre_inv, pre_A, alpha, beta, pre_v, (out[0].copy(), out[1].copy())))
+            return out
+        strategy._rankOneUpdate = r1
+        return spy_
+    strategy = cma.StrategyMultiObjective(pop0, d["sigma"], lambda_=lam, **kargs)
+    spy = instrument(strategy)
+    restarts = {int(rs["at"]): rs for rs in d.get("restarts", [])}
+    n_restart = 0
+    tag_msg = None
     lines, expect = [], []
     dflt = cma.StrategyMultiObjective(list(pop0), d["sigma"], mu=mu, lambda_=lam)
     lines.append("C14 mo-params %d %d %d" % (dim, mu, lam))
@@ -670,7 +730,24 @@ def eval_mo(d):
     S = strategy
     try:
         for r in range(nrounds):
+            if r in restarts:
+                # RESTART: a new strategy is built from individuals that went through the running one (its parents
+                # permuted / sorted / filtered, its next offspring, or a mix; the objects themselves or deep copies,
+                # which carry every attribute the old strategy left on them).  The statement's clause is about the
+                # new strategy's own bookkeeping: whatever the individuals carry must not leak into it.
+                start, lam, rkargs = restart_population(S, restarts[r], rng, Ind, obj, d.get("repair"))
+                S = cma.StrategyMultiObjective(start, restarts[r]["sigma"], lambda_=lam, **rkargs)
+                spy = instrument(S)
+                mu = S.mu
+                n_restart += 1
+                for name in ("sigmas", "A", "invCholesky", "pc", "psucc"):
+                    if len(getattr(S, name)) != len(S.parents):
+                        raise Fail("round %d (restart): len(%s)=%d but %d parents" % (r, name, len(getattr(S, name)), len(S.parents)))
+                if list(map(id, S.parents)) != list(map(id, start)):
+                    raise Fail("round %d (restart): the new strategy's parents are not the individuals it was given" % r)
             m = len(S.parents)
+            rawtags = ["n" if not hasattr(p, "_ps") else "%s%d" % ("o" if p._ps[0] == "o" else "p", int(p._ps[1]))
+                       for p in S.parents]
             pre = dict(parents=list(S.parents), px=[list(p) for p in S.parents],
                        pw=[tuple(p.fitness.wvalues) for p in S.parents], sigmas=list(S.sigmas),
                        A=[a.copy() for a in S.A], Aobj=list(S.A), inv=[a.copy() for a in S.invCholesky],
@@ -682,8 +759,9 @@ def eval_mo(d):
                 raise Fail("round %d: generate returned %d individuals" % (r, len(off)))
             tags = [tuple(o._ps) for o in off]
             for j, p in enumerate(S.parents):
-                if tuple(p._ps) != ("p", j):
-                    raise Fail("round %d: parent %d carries tag %r after generate" % (r, j, p._ps))
+                if tuple(p._ps) != ("p", j) and tag_msg is None:
+                    # reported after this round's alignment oracle (which speaks about the statement itself)
+                    tag_msg = "round %d: parent %d carries tag %r after generate" % (r, j, p._ps)
             for o, z in zip(off, arz):
                 if o._ps[0] != "o" or not (0 <= o._ps[1] < m):
                     raise Fail("round %d: offspring tag %r" % (r, o._ps))
@@ -693,7 +771,7 @@ def eval_mo(d):
                     raise Fail("round %d: offspring is not parent[%d] + sigma*A*z" % (r, j))
             if lam == S.mu and [t[1] for t in tags] != list(range(lam)):
                 raise Fail("round %d: lambda == mu but offspring parents are %r" % (r, tags))
-            if r < 3:
+            if r < 3 or any(0 <= r - a < 2 for a in restarts):
                 ff = tools.sortLogNondominated(S.parents, len(S.parents), first_front_only=True)
                 ffpos = [next(p for p, c in enumerate(S.parents) if c is f) for f in ff]
                 if lam != S.mu and any(t[1] not in ffpos for t in tags):
@@ -710,7 +788,13 @@ def eval_mo(d):
             cands = off + pre["parents"]
             fronts = mo_fronts(cands) if len(cands) > S.mu else []
             del r1calls[:]
-            S.update(off)
+            try:
+                S.update(off)
+            except Fail:
+                raise
+            except Exception as exc:        # the statement demands a result for every population generate() produced
+                raise Fail("round %d: update() raised %s: %s on the population generate() produced (parents carried the tags %s "
+                           "before generate)" % (r, type(exc).__name__, exc, ",".join(rawtags)))
             # ---------------- oracle ----------------
             chosen, notchosen = spy.result
             pos = lambda c: next(p for p, q in enumerate(cands) if q is c)
@@ -799,11 +883,17 @@ def eval_mo(d):
             if any(not (0.0 <= p <= 1.0) for p in S.psucc) or any(not (s > 0 and math.isfinite(s)) for s in S.sigmas):
                 raise Fail("round %d: psucc/sigma out of range: %r %r" % (r, S.psucc, S.sigmas))
             # ---------------- model line ----------------
-            if sample_round(r, nrounds, max(mu, len(pre["px"])) * dim * dim > 120):
+            if tag_msg:
+                raise Fail(tag_msg)
+            if sample_round(r, nrounds, max(mu, len(pre["px"])) * dim * dim > 120) or r in restarts or (r - 1) in restarts:
                 prm = "%d %d %s" % (S.mu, lam, " ".join(fbits(x) for x in (S.d, S.ptarg, S.cp, S.cc, S.ccov, S.pthresh)))
                 tape = ",".join("%d:%d" % (len(p), i) for p, i in spy.calls) or "-"
-                lines.append("C14 mo-upd %d 2 %s %s %s %s %s %s %s %s %s %s %s %s %s %s" % (
-                    dim, prm, fm(pre["px"]), fm(pre["pw"]), ",".join("p%d" % j for j in range(m)), fv(pre["sigmas"]),
+                # restart histories replay the WHOLE round (generate's re-tagging of every parent, then update) from
+                # the raw tags the individuals carried before generate (op mo-round, MO.round / MO.setTags)
+                lines.append("C14 %s %d 2 %s %s %s %s %s %s %s %s %s %s %s %s %s %s" % (
+                    "mo-round" if restarts else "mo-upd",
+                    dim, prm, fm(pre["px"]), fm(pre["pw"]),
+                    ",".join(rawtags) if restarts else ",".join("p%d" % j for j in range(m)), fv(pre["sigmas"]),
                     fms(pre["A"]), fms(pre["inv"]), fm(pre["pc"]), fv(pre["psucc"]),
                     fm(offx), fm(offw), ",".join("o%d" % t[1] for t in tags), il2(fronts), tape))
                 ref = spy.ref if spy.ref is not None else numpy.max(-numpy.array(offw + pre["pw"]), axis=0) + 1
@@ -814,6 +904,11 @@ def eval_mo(d):
     except Fail as e:
         orc = str(e)
     tag = "mo/%s/d%d/mu%d/l%d/%s" % (obj, dim, mu, lam, "eq" if lam == mu else "ne")
+    if restarts:
+        tag = "mo-restart/%s/%s/%s" % ("+".join(sorted(set(rs["mode"] for rs in restarts.values()))),
+                                       "clone" if any(rs.get("clone") for rs in restarts.values()) else "same",
+                                       "eq" if lam == mu else "ne")
+        return Case(d, lines, expect, orc, tag=tag, nontrivial=(n_off > 0 and n_restart > 0), tol=case_tol(mo_cond_max))
     return Case(d, lines, expect, orc, tag=tag, nontrivial=(n_off > 0 and n_ind > 0), tol=case_tol(mo_cond_max))
 
 
@@ -1064,6 +1159,14 @@ def eval_active(d):
     plain = not (cons or d.get("confit"))
     try:
         for r in range(nrounds):
+            rs = d.get("restart")
+            if rs and r == rs["at"]:
+                # a new strategy started from the parent object of the running one (it carries _y, _z, _id, a fitness
+                # and possibly constraint flags from the previous run), or from a deep copy of it
+                par0 = copy.deepcopy(S.parent) if rs.get("clone") else S.parent
+                S = cma.StrategyActiveOnePlusLambda(par0, rs["sigma"], list(d["steps"]), lambda_=lam, **dict(d.get("kargs", {})))
+                if S.parent is not par0:
+                    raise Fail("round %d (restart): the new strategy does not start from the given parent" % r)
             pre = act_state(S)
             intmut = []
             real_im = S._integer_mutation
@@ -1312,6 +1415,53 @@ def gen_structured(thorough, rng, mult, lmax):
         yield {"k": "mo", "dim": dim, "mu": mu, "lam": rng.choice([mu, rng.randint(1, lmax)]),
                "obj": rng.choice(["bisphere", "zdt"]), "x0": [rnd_vec(rng, dim, 0.0, 1.0) for _ in range(mu + rng.randint(1, 3))],
                "sigma": 0.5, "rounds": rng.randint(2, 15), "seed": rng.randrange(1 << 30)}
+
+
+def gen_restarts(thorough, rng, mult, lmax):
+    """RESTART histories (clause 'per-parent lists aligned to the surviving parents', and elitism / factors of the
+    (1+lambda) strategies, for strategies whose initial individuals went through another strategy): some rounds, then
+    a new strategy built from the running one's individuals - parents shuffled / sorted / filtered, the next
+    offspring population, a mix; the same objects or deep copies; lambda = mu and != mu; possibly twice.  The set
+    of (mode, clone, lambda-relation) combinations is fixed, seeds only vary the inputs."""
+    modes = ["perm", "sorted", "subset", "offspring", "mixed"]
+    for rep_ in range((3 if thorough else 1) * mult):
+        for mode in modes:
+            for clone in (False, True):
+                for eq in (True, False):
+                    dim = rng.randint(2, 4)
+                    mu = rng.randint(3, 6)
+                    lam = mu if eq else rng.choice([x for x in range(2, lmax + 1) if x != mu])
+                    r0 = rng.randint(2, 7)
+                    keep = rng.randint(2, mu) if mode in ("subset", "mixed") else (rng.randint(2, lam) if rng.random() < 0.4 else 0)
+                    rs = {"at": r0, "mode": mode, "clone": clone, "sigma": rng.choice([0.2, 0.3, 0.6]), "keep": keep,
+                          "reverse": rng.random() < 0.5}
+                    if not eq:
+                        rs["lam"] = rng.randint(1, lmax)          # else lambda_ = mu = len(start)
+                        if rng.random() < 0.3:
+                            rs["mu"] = rng.randint(1, 4)
+                    rss = [rs]
+                    if rng.random() < 0.35:                      # a second restart, from what the second strategy holds
+                        rss.append({"at": r0 + rng.randint(1, 4), "mode": rng.choice(modes), "clone": rng.random() < 0.5,
+                                    "sigma": 0.4, "keep": rng.randint(2, 4), "lam": 0 if eq else rng.randint(1, lmax)})
+                    obj = rng.choice(["bisphere", "zdt", "bistep"])
+                    yield {"k": "mo", "dim": dim, "mu": mu, "lam": lam, "obj": obj,
+                           "x0": [rnd_vec(rng, dim, -1.5, 1.5) if obj != "zdt" else rnd_vec(rng, dim, 0.0, 1.0) for _ in range(mu)],
+                           "sigma": rng.choice([0.5, 0.8]), "rounds": rss[-1]["at"] + rng.randint(3, 9),
+                           "seed": rng.randrange(1 << 30), "restarts": rss}
+        for clone in (False, True):
+            dim = rng.randint(2, 4)
+            r0 = rng.randint(3, 12)
+            yield {"k": "op", "dim": dim, "lam": rng.choice([1, 2, 4]), "obj": rng.choice(["sphere", "ellipsoid", "step"]),
+                   "x0": rnd_vec(rng, dim), "sigma": 0.5, "rounds": r0 + rng.randint(4, 12), "seed": rng.randrange(1 << 30),
+                   "shuffle": rng.random() < 0.5, "restart": {"at": r0, "clone": clone, "sigma": rng.choice([0.1, 1.0])}}
+            for pmode, confit in (("fit", True), ("array", False)):
+                a = [0.0] * dim
+                a[0] = 1.0
+                yield {"k": "act", "dim": dim, "lam": rng.choice([1, 2, 4]), "obj": "sphere",
+                       "x0": [round(rng.uniform(1.0, 3.0), 3) for _ in range(dim)], "sigma": 0.5, "steps": [0.0] * dim,
+                       "cons": [[a, 0.1]] if confit else [], "parent_fit": pmode == "fit", "confit": confit,
+                       "rounds": r0 + rng.randint(4, 12), "seed": rng.randrange(1 << 30), "shuffle": False,
+                       "restart": {"at": r0, "clone": clone, "sigma": rng.choice([0.2, 1.0])}}
 
 
 def gen_invalid_parent(thorough, rng, mult, lmax):
@@ -1570,6 +1720,8 @@ def generate(tier, rng, mult):
     whole histories of the three strategies first, then the direct single-call streams."""
     thorough = tier == "thorough"
     dmax, lmax, mumax = (10, 20, 10) if thorough else (6, 8, 6)
+    for d in gen_restarts(thorough, rng, mult, lmax):
+        yield d
     for d in gen_structured(thorough, rng, mult, lmax):
         yield d
     for d in gen_mosellib(rng, (2000 if thorough else 300) * mult):
